@@ -89,6 +89,7 @@ ALGO_CFG = """SPECIFICATION Spec
 CONSTANT LineSeps <- PyLineSeps
 CONSTANT MaxLen = %d
 CONSTANT EMIT = %s
+CONSTANT Kind = "%s"
 INVARIANT DiffsCorrect
 INVARIANT ChunkShapes
 INVARIANT NoErrorArm
@@ -104,17 +105,17 @@ CHECK_DEADLOCK FALSE
 """
 
 
-def merge_algo(chk, maxlen, emit):
+def merge_algo(chk, maxlen, emit, kind="lists"):
     """Design level: TLC checks the laws on the TLA+ transcription of the list merge (MergeAlgo.tla) for every
     triple of the universe; with emit the transcription is compared with nbdime's decisions (model drift)."""
     import json
     from . import tlc
     from .encode import dec, enc, enc_diff
-    r = tlc.run("MergeAlgo", ALGO_CFG % (maxlen, "TRUE" if emit else "FALSE"), workers=1 if emit else common.NCPU,
-                timeout=3000, name="MergeAlgo-%d" % maxlen, xmx="8g")
+    r = tlc.run("MergeAlgo", ALGO_CFG % (maxlen, "TRUE" if emit else "FALSE", kind), workers=1 if emit else common.NCPU,
+                timeout=3000, name="MergeAlgo-%s-%d" % (kind, maxlen), xmx="8g")
     if r.invariant_violated or r.error:
         raise tlc.TLCError("MergeAlgo: %s\n%s" % (r.error, "\n".join(l for l in r.out.splitlines() if not l.startswith('"'))[-2500:]))
-    chk.add_model(r, "MergeAlgo MaxLen=%d (all triples of lists over 3 atoms)" % maxlen)
+    chk.add_model(r, "MergeAlgo %s MaxLen=%d (all triples over 3 atoms)" % (kind, maxlen))
     if not emit:
         return
     from nbdime.merging.generic import decide_merge
@@ -129,7 +130,7 @@ def merge_algo(chk, maxlen, emit):
             mm = apply_decisions(b, D)
             got = [{"action": d.action, "conflict": d.conflict, "local_diff": enc_diff(d.local_diff or []),
                     "local_null": d.local_diff is None, "remote_diff": enc_diff(d.remote_diff or [])} for d in D]
-            gm = enc(list(mm))
+            gm = enc(list(mm) if kind == "lists" else dict(mm))
         except Exception as e:  # noqa
             got, gm = "raised %s" % type(e).__name__, None
         exp = [{"action": d["action"], "conflict": d["conflict"],
@@ -139,8 +140,8 @@ def merge_algo(chk, maxlen, emit):
         if json.dumps(got, sort_keys=True) != json.dumps(exp, sort_keys=True) or gm != enc(dec(m["merged"])):
             drift += 1
             first = first or {"base": b, "local": l, "remote": rr}
-    chk.notes["MergeAlgo_vs_nbdime"] = {"triples_compared": n, "model_drift": drift, "first_drift": first}
-    chk.count(("MergeAlgo", maxlen), nontrivial=False, n=n)
+    chk.notes.setdefault("MergeAlgo_vs_nbdime", {})[kind] = {"triples_compared": n, "model_drift": drift, "first_drift": first}
+    chk.count(("MergeAlgo", kind, maxlen), nontrivial=False, n=n)
 
 
 def run():
@@ -148,6 +149,7 @@ def run():
     corp = Corpus(chk)
     r = common.rng("c05")
     merge_algo(chk, 2, True)
+    merge_algo(chk, 1, True, kind="objects")
     if not chk.quick:
         merge_algo(chk, 3, False)
     if chk.quick:
